@@ -15,7 +15,7 @@ func init() {
 			"Exempt (entry, sink) pairs are listed one by one with the reason. Module-account protection of tokenfactory mint/burn/force-transfer is checked as ordinary guards.",
 		NotCovered:  []string{"'leaving all balances and records unchanged' on failure (SDK transaction atomicity is trusted)", "reachability of objects over histories", "wasm hooks"},
 		Assumptions: []string{"message signer = the field parsed by GetSigners (cross-checked structurally)", "call depth <= 7 frames inside osmosis packages"},
-		MinObl:      85,
+		MinObl:      88,
 		Run:         runC20,
 	})
 }
@@ -123,6 +123,11 @@ func runC20(c *rules.Ctx) {
 	c.LoopOnlyFailExits(tf+"forceTransfer", "the scan over protected modules is left early only by failing")
 	c.CallArg(tf+"forceTransfer", "tokenfactorytypes.BankKeeper.SendCoins", 2, "{FROM}", "the checked source is the one debited")
 	c.CallArg(tf+"forceTransfer", "tokenfactorytypes.BankKeeper.SendCoins", 3, "{TO}", "the checked destination is the one credited")
+	// a denom cannot be created twice: existence is decided by the bank's denom metadata (which survives a renounced admin)
+	const VC = "x/tokenfactory/keeper.Keeper.validateCreateDenom"
+	c.FailsWhen(VC, "tokenfactorytypes.BankKeeper.GetDenomMetaData(k.bankKeeper,ctx,tokenfactorytypes.GetTokenDenom(creatorAddr,subdenom)#0)#1", "creating a denom that already exists fails — whoever its admin is now, renounced included (re-creation would hand the powers back to the creator)", rules.GuardOpt{})
+	c.FailsWhen(VC, "tokenfactorytypes.BankKeeper.HasSupply(k.bankKeeper,ctx,subdenom)", "a sub-denom that shadows an existing native denom is refused", rules.GuardOpt{})
+	c.CheckedCall("x/tokenfactory/keeper.Keeper.CreateDenom", "tokenfactorykeeper.Keeper.validateCreateDenom", []string{"k", "ctx", "creatorAddr", "subdenom"}, "creation goes through the validation, for the signer's own namespace", "")
 	c.R.Extra["auth_entries"] = len(entries)
 	c.R.Extra["auth_paths"] = len(paths)
 }
